@@ -48,6 +48,7 @@ LEVEL = "exploration"
 TECHNIQUE = ("deterministic simulation: random template trees flattened by the real flatten() under seeded firing order of their "
              "Deferred/coroutine leaves vs the synchronous document (prefix at every suspension) and vs two independent parsers")
 QUICK_RUNS = 60000
+TWIN_P = 0.08   # this share of the runs drives two independent instances of the scenario one after the other (detsim.runner._run_scenario)
 BATCH = 250
 COMPONENTS = {"real": ["twisted.web._flatten.flatten/flattenString/_flattenTree/_flattenElement/_fork",
                        "twisted.web._flatten.escapeForContent/attributeEscapingDoneOutside/writeWithAttributeEscaping/escapedCDATA/escapedComment",
